@@ -76,6 +76,9 @@ func (r slowTXT) LookupTXT(ctx context.Context, name string) ([]string, error) {
 			t.Stop()
 			r.w.s.Stat("dmarc_lookup_cancelled")
 			return nil, &net.DNSError{Err: ctx.Err().Error(), Name: name}
+		case <-simrt.Done():
+			t.Stop()
+			simrt.ExitShutdown()
 		}
 		simrt.Yield("dns:txt-done")
 	}
